@@ -39,6 +39,14 @@ def gen_pyfuns() -> str:
     body = py2lean.translate_function(
         U._slice_indices, "sliceIndices",
         [("index_start", "opt"), ("index_stop", "opt"), ("index_step", "opt"), ("len", "int")], 3)
+    # the dual pair `infer_size_impl` (eager: base.py view/unflatten, _lazy.py) / `_infer_size_impl`
+    # (the copy that torch.compile does not skip: _td.py view/reshape, _lazy.py _view, tensorclass.py)
+    for fn, nm in ((U.infer_size_impl, "inferSizeImpl"), (U._infer_size_impl, "inferSizeImplLocal")):
+        body += "\n" + py2lean.translate_function(fn, nm, [("shape", "list"), ("numel", "int")], 0)
+    # `_maybe_correct_neg_dim(dim, shape, ndim=None)`: used by every dim-taking op on both paths; `shape` is
+    # declared a list (calls with shape=None differ only in the text of the IndexError message)
+    body += "\n" + py2lean.translate_function(
+        U._maybe_correct_neg_dim, "maybeCorrectNegDim", [("dim", "int"), ("shape", "list"), ("ndim", "opt")], 1)
     return HEADER + "namespace TdVerif.Gen\n\n" + body + "\nend TdVerif.Gen\n"
 
 
